@@ -866,6 +866,57 @@ pub fn check_case(cx: &mut Ctx, case: &Case, mut rep: Option<&mut Report>) -> Ve
         }
     }
     got.remove("disp");
+    // continued execution: a second receiver loads the same file and is compared, step by step, with an
+    // emulator *built* in the described state (complete files only; the frame clock of the built one is
+    // moved forward to the loaded one's)
+    if out.is_empty() && spec.is_some() {
+        let described: Option<MState> = match &case.file {
+            FileSpec::Szx(s) => {
+                let complete = (if s.mid >= 2 { (0..8u8).collect::<Vec<_>>() } else { vec![0u8, 2, 5] })
+                    .iter()
+                    .all(|p| s.order.iter().any(|k| matches!(k, Ck::Ramp(q, _) if q == p)));
+                if complete && s.order.contains(&Ck::Z80r) && s.order.contains(&Ck::Spcr) {
+                    let mut d = s.st.clone();
+                    d.pfx = 0;
+                    Some(d)
+                } else {
+                    None
+                }
+            }
+            FileSpec::Sna(s) => {
+                let mut d = s.clone();
+                if !s.m128 {
+                    d.poke(s.sp().wrapping_sub(1), (s.pc() >> 8) as u8);
+                    d.poke(s.sp().wrapping_sub(2), s.pc() as u8);
+                }
+                d.ay = case.recv.ay.clone();
+                Some(d)
+            }
+            FileSpec::Scr(_) => None,
+        };
+        if let Some(d) = described {
+            let mut a = build(&case.recv);
+            let ok = match &case.file {
+                FileSpec::Szx(_) => load_szx(&mut a, &bytes),
+                _ => load_sna(&mut a, &bytes),
+            };
+            if ok == Outcome::Ok {
+                let mut b = build(&d);
+                if a.verif_frame_clocks() >= b.verif_frame_clocks() {
+                    b.verif_set_frame_clocks(a.verif_frame_clocks());
+                    let ra = run_steps(&mut a, 5);
+                    let rb = run_steps(&mut b, 5);
+                    if let Some(r) = rep.as_deref_mut() {
+                        r.eval();
+                        r.count("continued_execution", if d.halt { "halted" } else if d.skip { "ei-pending" } else { "running" });
+                    }
+                    if ra != rb {
+                        out.push(Finding { phase: "continue", group: "execution".into(), kind: Kind::SpecViolated, got: ra, want: rb });
+                    }
+                }
+            }
+        }
+    }
     if let Some(r) = rep.as_deref_mut() {
         r.eval();
         let extra = match &case.file {
@@ -953,7 +1004,7 @@ pub fn random_szx(r: &mut Rng, m128: bool) -> SzxSpec {
         let j = r.below(k as u64 + 1) as usize;
         order.swap(k, j);
     }
-    SzxSpec { mid, st, fe, cycles: r.below(60000) as u32, memptr: r.u16(), fset: r.bool(), order }
+    SzxSpec { mid, st, fe, cycles: if r.chance(1, 3) { r.below(16) as u32 } else { r.below(60000) as u32 }, memptr: r.u16(), fset: r.bool(), order }
 }
 
 fn random_recv(r: &mut Rng, m128: bool) -> MState {
